@@ -119,8 +119,12 @@ def run(ck):
                             ck.check(isinstance(a, VTens) and a.obj.origin == "fresh" and not a.obj.may_alias, "C09.R1", inst + ":swap(%s) on a copy" % nm, asite,
                                      "swap receives a tensor that shares storage with %s" % (getattr(getattr(a, "obj", None), "origin", "?")))
                     # ---------------- R3 pairing
-                    rolls = [c for c in p.interp.ext_calls if c[0] == "torch.roll"]
                     S = T.sym("samples")
+                    all_rolls = [c for c in p.interp.ext_calls if c[0] == "torch.roll"]
+                    # the roll that builds the second replica is the one applied to the batch itself; a roll of something computed from
+                    # the batch (per-row values shifted along with their rows) is judged where it is used
+                    rolls = [c for c in all_rolls if c[1] and isinstance(c[1][0], VTens) and c[1][0].term == S] or all_rolls
+                    other_rolls = [c for c in all_rolls if not any(c is x for x in rolls)]
                     okroll = False
                     if len(rolls) == 1:
                         args, kwargs = rolls[0][1], rolls[0][2]
@@ -138,7 +142,65 @@ def run(ck):
                         ck.check(None if rolls else False, "C09.R3", inst + ":replica = cyclic shift of the batch rows", asite,
                                  "the second replica is not built by a cyclic roll of the batch (found %d torch.roll calls)" % len(rolls))
                     wc = [c for c in p.calls if c[0].endswith("importance_sampling_weight")]
-                    ck.check(len(wc) == 2, "C09.R3", inst + ":two weights", asite, "importance_sampling_weight is called %d times, expected 2" % len(wc))
+                    ncalls = [c for c in p.calls if c[0].endswith("importance_sampling_numerator")]
+                    dcalls = [c for c in p.calls if c[0].endswith("importance_sampling_denominator")]
+                    nd_form = not wc and len(ncalls) == 2 and 1 <= len(dcalls) <= 2
+                    if nd_form:
+                        # the two weights written as (numerator1 * numerator2) / (denominator1 * denominator2): the same quantities,
+                        # decided on the numerators' and denominators' arguments and on the value
+                        ck.ok("C09.R3", inst + ":two weights (as numerators over denominators)", asite)
+                    else:
+                        ck.check(len(wc) == 2, "C09.R3", inst + ":two weights", asite, "importance_sampling_weight is called %d times, expected 2" % len(wc))
+                    if nd_form and len(rolls) == 1 and okroll:
+                        R = rolls[0][4].term
+                        from ..ops import _spec_item
+
+                        spec = (("slice", None, None, None), _spec_item(o.inst.attrs.get("A")))
+                        sw1 = T.upd(S, spec, T.app("index", R, spec))
+                        sw2 = T.upd(R, spec, T.app("index", S, spec))
+                        pairs = [(getattr(c[5].get("vp"), "term", None), getattr(c[5].get("v"), "term", None)) for c in ncalls]
+                        if sorted(map(repr, pairs)) == sorted(map(repr, [(sw1, S), (sw2, R)])):
+                            ck.ok("C09.R3", inst + ":numerators pair swapped_k with original_k", asite)
+                        elif all(a in (sw1, sw2) for a, _ in pairs) and all(b in (S, R) for _, b in pairs):
+                            ck.violation("C09.R3", inst + ":numerators pair swapped_k with original_k", asite,
+                                         "a swapped configuration's numerator is taken against the wrong original (each must be numerator(swapped_k, original_k), once per replica): %s"
+                                         % [("swapped%d" % (1 if a == sw1 else 2), "original%d" % (1 if b == S else 2)) for a, b in pairs])
+                        else:
+                            ck.undecided("C09.R3", inst + ":numerators pair swapped_k with original_k", asite, "numerator arguments not recognised: %r" % (pairs,))
+                        dvs = [getattr(c[5].get("v"), "term", None) for c in dcalls]
+                        if len(dcalls) == 2:
+                            ck.check(sorted(map(repr, dvs)) == sorted(map(repr, [S, R])), "C09.R3", inst + ":denominators of both originals", asite,
+                                     "the denominators are evaluated on %s; expected the two original replicas" % (dvs,))
+                        else:
+                            # one denominator evaluated, the other obtained by shifting it along the batch axis: a per-row value
+                            # shifted with its rows - the shift must be the replica's own
+                            okd = None
+                            if dvs[0] == S and len(other_rolls) == 1:
+                                a_, k_ = other_rolls[0][1], other_rolls[0][2]
+                                x_ = a_[0] if a_ else None
+                                sh_ = a_[1] if len(a_) > 1 else k_.get("shifts")
+                                dm_ = a_[2] if len(a_) > 2 else k_.get("dims")
+                                d1t = dcalls[0][6]
+                                oks_, shv_ = const_of(sh_) if sh_ is not None else (False, None)
+                                okm_, dmv_ = const_of(dm_) if dm_ is not None else (False, None)
+                                rs_ = const_of(rolls[0][1][1] if len(rolls[0][1]) > 1 else rolls[0][2].get("shifts"))
+                                if isinstance(x_, VTens) and x_.term is not None and x_.term == d1t and oks_ and okm_ and dmv_ in (-1, 1) and rs_[0]:
+                                    okd = shv_ == rs_[1]
+                                    if not okd:
+                                        ck.violation("C09.R3", inst + ":second denominator = first one shifted like the replica", asite,
+                                                     "the second replica is the batch shifted by %s rows, its denominators are the first replica's shifted by %s: every weight of the second replica is divided by another row's denominator"
+                                                     % (rs_[1], shv_))
+                            if okd is not False:
+                                ck.check(okd, "C09.R3", inst + ":second denominator = first one shifted like the replica", asite, "the second denominator is not recognised")
+                        # the value: Re( n1 n2 / (d1 d2) ) when both denominators were evaluated directly
+                        if len(dcalls) == 2 and isinstance(r, VTens) and r.term is not None and all(T.as_stack0(c[6]) is not None for c in ncalls + dcalls if c[6] is not None) and all(c[6] is not None for c in ncalls + dcalls):
+                            (ar, ai), (br, bi) = T.as_stack0(ncalls[0][6]), T.as_stack0(ncalls[1][6])
+                            (cr, ci), (dr, di) = T.as_stack0(dcalls[0][6]), T.as_stack0(dcalls[1][6])
+                            nr, ni = ar * br - ai * bi, ar * bi + ai * br
+                            er, ei = cr * dr - ci * di, cr * di + ci * dr
+                            want = (nr * er + ni * ei) * T.inv(er * er + ei * ei)
+                            ck.check(True if (r.term == want or T.ratfun_equal(r.term, want)) else None, "C09.R3", inst + ":Re(n1 n2 / (d1 d2))", asite,
+                                     "the result is not the real part of the product of numerators over the product of denominators: %r" % (str(r.term)[:200],))
                     if len(wc) == 2 and len(rolls) == 1 and okroll:
                         R = rolls[0][4].term
                         from ..ops import _spec_item
@@ -187,6 +249,29 @@ def run(ck):
                         else:
                             ck.undecided("C09.R3", inst + ":Re(w1*w2)", asite, "weights are not complex pairs")
                     ck.check(shape_is(r, ("B",)), "C09.R3", inst + ":shape", asite, "result shape %s, expected (B,)" % (getattr(r, "shape", None),))
+                    # ---------------- R6 (numerical range, "all parameters"): each replica's weight is a ratio of amplitudes of
+                    # comparable size.  A divisor that multiplies the unnormalised amplitudes of BOTH replicas - exp(E1 + E2) - overflows
+                    # where exp(E1) and exp(E2) are finite: the estimator is NaN on half of the range on which it was exact.
+                    def _kinds(arg):
+                        ks = set()
+                        for mono in (arg.terms if isinstance(arg, T.Poly) else {}):
+                            for a_, _pw in mono:
+                                sub = [a_] + (list(T.P(a_).all_atoms()) if not isinstance(a_, T.Sym) else [])
+                                if not any(isinstance(x_, T.Sym) and x_.name == "samples" for x_ in sub) and "samples" not in (T.P(a_).syms()):
+                                    continue
+                                ks.add("second replica" if any(isinstance(x_, T.App) and x_.op == "roll" for x_ in sub) else "first replica")
+                        return ks
+
+                    mixed = []
+                    for dsite, dterm, dstack in getattr(p.interp, "tensor_divisions", []):
+                        if not any(q_.endswith("SWAP.apply") for q_ in dstack) or not isinstance(dterm, T.Poly):
+                            continue
+                        for a_ in dterm.all_atoms():
+                            if isinstance(a_, T.Exp) and _kinds(a_.arg) == {"first replica", "second replica"}:
+                                mixed.append((dsite, a_))
+                    ck.check(not mixed, "C09.R6", inst + ":no divisor multiplies the unnormalised amplitudes of both replicas", mixed[0][0] if mixed else asite,
+                             "a divisor is exp(E(first replica) + E(second replica)): the product of both replicas' unnormalised probabilities overflows where each of them is still finite (the estimate is inf/inf = "
+                             "NaN on half of the parameter range on which dividing replica by replica is exact)", key="C09.R6|SWAP|joint divisor")
     # ------------------------------------------------------------------ R4 history independence (two-call protocol)
     from .history import check_history
 
@@ -227,6 +312,7 @@ def run(ck):
     ck.require_min("C09.R4", 6)
     ck.require_min("C09.R1", 18)
     ck.require_min("C09.R2", 10)
+    ck.require_min("C09.R6", 6)
     ck.require_min("C09.R3", 40)
     ck.assumptions += [
         "torch.roll(x, s, 0) is a cyclic permutation of rows (every sample occurs once per replica role)",
